@@ -1,4 +1,5 @@
 import Chess.Lemmas.Reach
+import Chess.Lemmas.SearchF
 
 /-!
 # C19 — fixed-depth search is reproducible
@@ -36,8 +37,29 @@ theorem depth_search_not_stopped (o : Ops G M) (g : G) (tt : Table M) (off : Boo
     (driver o (fun _ => true) g tt off md).stopped = false :=
   (driver_terminates_by_itself o g tt off md).1
 
+
+/-! ### The faithful model (`driverF`) -/
+open Chess.Search.F in
+/-- **C19.4** Unstopped runs of the faithful driver agree, and what it reports always agrees with
+the dropping model (only the table handed on differs, and only after a stop). -/
+theorem faithful_unstopped_runs_agree (o : Ops G M) (runs runs' : Nat → Bool) (g : G) (tt : Table M)
+    (off : Bool) (md : Option Nat) (h : (driverF o runs g tt off md).stopped = false)
+    (h' : (driverF o runs' g tt off md).stopped = false) :
+    driverF o runs g tt off md = driverF o runs' g tt off md :=
+  driverF_flag_free_unstopped o runs runs' g tt off md h h'
+
+open Chess.Search.F in
+theorem faithful_reports_agree (o : Ops G M) (runs : Nat → Bool) (g : G) (tt : Table M) (off : Bool)
+    (md : Option Nat) :
+    (driverF o runs g tt off md).found = (driver o runs g tt off md).found ∧
+    (driverF o runs g tt off md).infos = (driver o runs g tt off md).infos ∧
+    (driverF o runs g tt off md).stopped = (driver o runs g tt off md).stopped :=
+  driverF_agrees o runs g tt off md
+
 end Chess.Props.C19
 
 #print axioms Chess.Props.C19.reset_forgets_history
 #print axioms Chess.Props.C19.unstopped_runs_agree
 #print axioms Chess.Props.C19.depth_search_not_stopped
+#print axioms Chess.Props.C19.faithful_unstopped_runs_agree
+#print axioms Chess.Props.C19.faithful_reports_agree
